@@ -225,6 +225,51 @@ pub fn search(tier: &str, seed: u64, s: &mut Search) {
         s.case("generated-relations", &svg, true);
         relations(t.root(), t.root().abs_transform(), "root", &svg, s);
     }
+    // ---- instances (use / nested svg / symbol) that the converter drops, with siblings after them: nothing of the
+    // dropped element may stay behind in the absolute transforms and boxes of its parent and later siblings
+    let nd = (if tier == "thorough" { 600 } else { 80 }) * mult;
+    for _ in 0..nd {
+        let reason = match rng.below(6) {
+            0 => r##" clip-path="url(#empty-clip)""##,
+            1 => r##" clip-path="url(#not-a-clip)""##,
+            2 => r##" mask="url(#zero-mask)""##,
+            3 => r##" filter="url(#missing)""##,
+            4 => r##" mask="url(#missing)""##,
+            _ => r##" clip-path="url(#missing)""##,
+        };
+        let (ox, oy) = (rng.range(20, 120), rng.range(20, 120));
+        // (placed by x / y only: a transform attribute on an instance runs into the recorded abs_transform defects)
+        let place = match rng.below(3) {
+            0 => format!(r#" x="{ox}" y="{oy}""#),
+            1 => format!(r#" x="{ox}""#),
+            _ => format!(r#" y="{oy}""#),
+        };
+        let inst = match rng.below(4) {
+            0 => format!(r##"<use xlink:href="#r"{place}{reason}/>"##),
+            1 => format!(r##"<use xlink:href="#sy"{place}{reason} width="30" height="30"/>"##),
+            2 => format!(r##"<use xlink:href="#nv"{place}{reason}/>"##),
+            _ => format!(r##"<svg{} width="30" height="30"{reason}><rect width="10" height="10"/></svg>"##, place.replace("transform", "data-t")),
+        };
+        let wrap = rng.chance(1, 2);
+        let svg = format!(
+            r##"<svg xmlns="http://www.w3.org/2000/svg" xmlns:xlink="http://www.w3.org/1999/xlink" width="200" height="200"><defs><rect id="r" width="20" height="20"/><symbol id="sy" viewBox="0 0 4 4"><rect width="4" height="4"/></symbol><svg id="nv" width="20" height="20"><rect width="10" height="10"/></svg><clipPath id="empty-clip"/><rect id="not-a-clip" width="5" height="5"/><mask id="zero-mask" maskUnits="userSpaceOnUse" x="0" y="0" width="0" height="10"><rect width="10" height="10" fill="white"/></mask></defs>{}<rect id="before" x="5" y="5" width="10" height="10"/>{inst}<rect id="after" x="30" y="5" width="10" height="10" fill="red"/><g id="after-group" opacity="0.5"><rect x="50" y="5" width="10" height="10"/></g>{}<rect id="outside" x="70" y="5" width="10" height="10"/></svg>"##,
+            if wrap { r#"<g id="layer" transform="translate(3 4)">"# } else { "" },
+            if wrap { "</g>" } else { "" }
+        );
+        let Ok(Ok(t)) = pan::catch(|| usvg::Tree::from_str(&svg, &o)) else { continue };
+        s.case("dropped-instance", &svg, true);
+        relations(t.root(), t.root().abs_transform(), "root", &svg, s);
+        // the siblings keep their places: absolute boxes of the elements with ids
+        for (id, x) in [("before", 5.0f32), ("after", 30.0), ("outside", 70.0)] {
+            if let Some(n) = t.node_by_id(id) {
+                let bx = n.abs_bounding_box().x();
+                let want = x + if wrap && id != "outside" { 3.0 } else { 0.0 };
+                if (bx - want).abs() > 0.01 {
+                    s.finding("oracle:C12:sibling-of-dropped-instance-displaced", &format!("element {:?}: absolute box starts at x = {}, its place is x = {}", id, bx, want), &svg);
+                }
+            }
+        }
+    }
     // ---- one visible leaf under a chain of groups: painted pixels vs the reported absolute boxes
     let png = "data:image/png;base64,iVBORw0KGgoAAAANSUhEUgAAAAIAAAACCAYAAABytg0kAAAAFElEQVR42mP8z8DwnwEIGBmgAAAbBAIA3K0LwQAAAABJRU5ErkJggg==";
     let nl = (if tier == "thorough" { 3000 } else { 300 }) * mult;
@@ -244,7 +289,7 @@ pub fn search(tier: &str, seed: u64, s: &mut Search) {
         let (sw, sh) = (rng.range(5, 50), rng.range(5, 50));
         let stroke = format!(
             r#" stroke="blue" stroke-width="{}" stroke-linecap="{}" stroke-linejoin="{}" stroke-miterlimit="{}""#,
-            *rng.pick(&["1", "4", "9.5", "0.3"]), *rng.pick(&["butt", "round", "square"]), *rng.pick(&["miter", "round", "bevel", "miter-clip"]), *rng.pick(&["1", "4", "10", "40"])
+            *rng.pick(&["1", "4", "9.5", "0.3", "22", "40"]), *rng.pick(&["butt", "round", "square", "square"]), *rng.pick(&["miter", "round", "bevel", "miter-clip"]), *rng.pick(&["1", "4", "10", "40"])
         );
         let leaf = match i % 8 {
             0 => format!(r#"<rect x="{x}" y="{y}" width="{sw}" height="{sh}" fill="red"{stroke}/>"#),
